@@ -35,10 +35,11 @@ LEAN_COMPONENT = "stream"
 PROPS_MODULE = "Haiway.Props.C11"
 ANCHORS = ["src/haiway/context/access.py (ctx.stream, ScopeContext)", "src/haiway/context/metrics.py",
            "src/haiway/context/state.py", "src/haiway/context/tasks.py"]
-RULE = ("case = 1-3 generator bodies (items, records, nested sync/async scopes and ctx.updated blocks around yields, "
+RULE = ("case = 1-3 generator bodies (items incl. the falsy values None/0/''/()/False, sources that are plain factory "
+        "functions recording or raising when called, records, nested sync/async scopes and ctx.updated blocks around yields, "
         "nested ctx.stream, ending normally / Boom / BaseBoom) + an interleaved label sequence over 1-3 tasks "
         "(enter/leave async scope, sync scope, ctx.updated; create stream; single __anext__ calls; aclose; abandon; "
-        "probes between items and after; start task); scenario templates (creation place x consumption place x "
+        "probes between items and after; start task; a task catching a cancellation request before/while consuming); scenario templates (creation place x consumption place x "
         "full/break+close/break+abandon/never started) + random well-formed sequences; "
         "non-trivial = some stream with >=2 items is consumed (>=2 __anext__) where the consumer's visible state differs "
         "from the state at creation (other scope, no scope, other task) AND the consumer probes between two items; "
